@@ -682,8 +682,12 @@ def do_kc_iteration(tree, out):
     text_is(cb[0].orelse[0], "new_dists = distance_method(traj, new_center)")
     tb = quiet(cb[0].body)
     need(len(tb) == 4, cb[0], "expected 4 statements in the triangle-inequality branch")
-    text_is(tb[0], "if hasattr(centers[0], 'xyz'):\n    cc_dists = np.array([distance_method(c, new_center).squeeze() for c in centers])\n"
-                   "else:\n    cc_dists = distance_method(np.array(centers), new_center)")
+    text_is(tb[0], "cc_dists = _center_distances(distance_method, centers, new_center)")
+    cd = find_func(tree, "_center_distances", KC)
+    sig(cd, ["distance_method", "centers", "new_center"], [])
+    need([U(x) for x in quiet(cd.body)] == [norm(
+        "if hasattr(centers[0], 'xyz'):\n    return np.array([distance_method(c, new_center).item() for c in centers])\n"
+        "else:\n    return distance_method(np.array(centers), new_center)")], cd, "_center_distances differs from its pinned text")
     rec = assign_to(tb[1], "recompute_dists")
     need(isinstance(rec, ast.Compare) and len(rec.ops) == 1 and U(rec.left) == "distances"
          and isinstance(rec.comparators[0], ast.BinOp) and U(rec.comparators[0].left) == "cc_dists[assignments]"
@@ -760,9 +764,9 @@ def do_kcenters(tree, out):
     text_is(wb[3], "if mpi.rank() == 0:\n    logger.info('Center %s gives max dist of %.6f (stopping @ d=%.6f/n=%s).', "
                    "len(center_inds), maxdist, dist_cutoff, n_clusters)")
     sel = body[body.index(wh[0]) - 2]
-    text_is(sel, "if mpi_mode:\n    iteration = _kcenters_iteration_mpi\n    kwargs = {'centers': centers}\n"
-                 "else:\n    iteration = _kcenters_iteration\n    kwargs = {}")
-    init = body[body.index(wh[0]) - 3]
+    text_is(sel, "kwargs = {'centers': centers}")
+    text_is(body[body.index(wh[0]) - 3], "if mpi_mode:\n    iteration = _kcenters_iteration_mpi\nelse:\n    iteration = _kcenters_iteration")
+    init = body[body.index(wh[0]) - 4]
     need(isinstance(init, ast.If) and U(init.test) == "init_centers is None", init, "expected `if init_centers is None`")
     need([U(s) for s in init.body] == ["ctr_inds = []", "centers = []", "assignments = np.full(len(traj), -1, dtype=int)",
                                        "distances = np.full(len(traj), np.inf, dtype=float)"], init,
